@@ -41,6 +41,7 @@ def population_correction(h):
     S, dS = sums.formal_sum_dom(h.ctx, root, inCal(u), last(u))
     sums.lemma_sum_bound(h.ctx, dS, cal.axis.n, lo=z3.RealVal(1), name="lemma.weight_sum_positive")
     self = h.obj(NP)
+    h.default_replay = lambda ev: {"target": "verif_replays:population_correction_replay", "args": [], "check": "result['exc'] is None and result['ok']"}
     kind, c = h.call_method(self, "_compute_population_correction", cal, scores, q, "turnout")
     if kind == "raise":
         return h.fail("no_raise", f"raised {c}")
